@@ -15,6 +15,9 @@ mod rng;
 mod state;
 mod stdproc;
 
+#[global_allocator]
+static GLOBAL: process::CountingAlloc = process::CountingAlloc;
+
 use check::{Property, RunOpts, Tier};
 use driver::*;
 
@@ -132,6 +135,20 @@ fn main() {
         Some("probe") => probe(&args[2..]),
         Some("check") => std::process::exit(run_property(&args[2], &args[3..])),
         Some("replay") => std::process::exit(replay(&args[2])),
+        Some("gencase") => {
+            // texsim gencase <property> <run index>: print the generated case as JSON
+            let i: u64 = args[3].parse().unwrap();
+            let seed = rng::mix(check::verif_seed(), i);
+            let v = match args[2].as_str() {
+                "C01" => serde_json::to_string_pretty(&c01::C01.generate(seed, i)).unwrap(),
+                "C08" => serde_json::to_string_pretty(&c08::C08.generate(seed, i)).unwrap(),
+                "C09" => serde_json::to_string_pretty(&c09::C09::new().generate(seed, i)).unwrap(),
+                "C19" => serde_json::to_string_pretty(&c19::C19.generate(seed, i)).unwrap(),
+                "C20" => serde_json::to_string_pretty(&c20::C20.generate(seed, i)).unwrap(),
+                _ => String::new(),
+            };
+            println!("{v}");
+        }
         Some("segment-child") => std::process::exit(job::segment_child_main(&args[2..])),
         Some("survey") => {
             let n: u64 = args.get(3).and_then(|s| s.parse().ok()).unwrap_or(2000);
